@@ -165,6 +165,19 @@ SPECS = [
          ensures=["evals(1) == 1", "S() == S0() + 'A<div><p k=\"s\">x</p></div>B'"],
          raises={'*': {'ensures': ["raised('e1')"]}},
          serves=PROP + ["C07", "C10"]),
+    dict(id='S-Attribute-boolean-interp',
+         # "Attributes configured as boolean ... disappear for false ones": also when the value is
+         # written as several ${...} parts -- all of them None gives no attribute at all
+         text='A<input checked="${e1}${e2}"/>B',
+         own_names=['None'],
+         ensures=["trace('e1', 'e2')",
+                  # (the emitted code spells a false value as the NAME None, which -- "names resolved from
+                  # template variables before Python builtins" -- a template variable called None
+                  # would shadow: excluded here)
+                  "visible0('None') is not UNBOUND() or not (val(1) is None and val(2) is None) "
+                  "or S() == S0() + 'A<input/>B'"],
+         raises={'*': {'ensures': ["raised('e1') or raised('e2') or ext_count() > 0 or translate_calls() > 0"]}},
+         serves=PROP + ["C07"]),
     dict(id='S-Attribute-dict',
          # a dictionary-valued entry of tal:attributes: evaluated once, before the named entries
          # it may override; each named entry once
@@ -257,6 +270,15 @@ SPECS = [
          raises={'*': {'ensures': ["raised('e4') or raised('h1') or (repeat_failed() and evals(4) == 1 "
                                    "and holes(1) == 0 and val(4) is not None)"]}},
          serves=PROP + ["C08", "C05"]),
+    dict(id='S-Repeat-comprehension',
+         # the outer binding of the loop name is saved BEFORE the repeat expression is evaluated -- an
+         # expression that itself binds the name (a comprehension over it) must not change what is
+         # restored afterwards.  The comprehension is outside the symbolic executor: BOUNDED (catalogue).
+         text='A<li tal:repeat="i [i for i in e4]">%s</li>B' % H1,
+         own_names=['i'], probe_values={'4': 'iterable'}, bounded_only=True,
+         ensures=["visible('i') is visible0('i')"],
+         raises={'*': {'ensures': ["True"]}},
+         serves=["C05", "C08"], no_fresh=True),
     dict(id='S-Repeat-indent',
          # "consecutive repetitions are separated by a line break plus that line's indentation":
          # the indentation is that of the element's own line, also when the text in front of it
